@@ -3,6 +3,7 @@ package main
 import (
 	"fmt"
 	"go/ast"
+	"go/printer"
 	"go/token"
 	"path/filepath"
 	"strconv"
@@ -187,6 +188,113 @@ func leanStrList(xs []string) string {
 	return "[" + strings.Join(q, ", ") + "]"
 }
 
+// guardedActions lists, in source order, every data-path action of a pump (hub hand-off, websocket write) together with the
+// conditions of the `if` statements it is nested in (then-branches as written, else-branches prefixed with "not:")
+func guardedActions(body ast.Node) [][2]string {
+	out := [][2]string{}
+	var walk func(n ast.Node, guards []string)
+	label := func(n ast.Node) string {
+		switch x := n.(type) {
+		case *ast.SendStmt:
+			return "send:" + exprString(x.Chan)
+		case *ast.CallExpr:
+			s := exprString(x.Fun)
+			if strings.HasSuffix(s, ".Write") || strings.HasSuffix(s, ".NextWriter") {
+				return s
+			}
+			if strings.HasSuffix(s, ".WriteMessage") && len(x.Args) > 0 {
+				return s + "(" + exprString(x.Args[0]) + ")"
+			}
+		}
+		return ""
+	}
+	walk = func(n ast.Node, guards []string) {
+		if n == nil {
+			return
+		}
+		switch x := n.(type) {
+		case *ast.IfStmt:
+			if x.Init != nil {
+				walk(x.Init, guards)
+			}
+			walk(x.Cond, guards)
+			c := srcString(x.Cond)
+			walk(x.Body, append(append([]string{}, guards...), c))
+			if x.Else != nil {
+				walk(x.Else, append(append([]string{}, guards...), "not:"+c))
+			}
+			return
+		case *ast.FuncLit:
+			return // deferred clean-up and handlers are not the data path
+		}
+		if l := label(n); l != "" {
+			out = append(out, [2]string{l, strings.Join(guards, " && ")})
+		}
+		ast.Inspect(n, func(m ast.Node) bool {
+			if m == n || m == nil {
+				return true
+			}
+			walk(m, guards)
+			return false
+		})
+	}
+	walk(body, nil)
+	return out
+}
+
+// frameSource: where the bytes handed to the hub come from — the right-hand side that defines the variable used as the
+// `data:` field of the message literal sent on the broadcast channel, plus every later assignment to / slicing of that variable
+func frameSource(fd *ast.FuncDecl) []string {
+	var dataVar string
+	ast.Inspect(fd.Body, func(n ast.Node) bool {
+		if ss, ok := n.(*ast.SendStmt); ok && strings.HasSuffix(exprString(ss.Chan), "broadcast") {
+			if cl, ok := ss.Value.(*ast.CompositeLit); ok {
+				for _, el := range cl.Elts {
+					if kv, ok := el.(*ast.KeyValueExpr); ok && exprString(kv.Key) == "data" {
+						dataVar = srcString(kv.Value)
+					}
+				}
+			} else {
+				dataVar = "<" + srcString(ss.Value) + ">"
+			}
+		}
+		return true
+	})
+	out := []string{"data:" + dataVar}
+	ast.Inspect(fd.Body, func(n ast.Node) bool {
+		if as, ok := n.(*ast.AssignStmt); ok {
+			for i, l := range as.Lhs {
+				if srcString(l) == dataVar {
+					rhs := as.Rhs[0]
+					if len(as.Rhs) == len(as.Lhs) {
+						rhs = as.Rhs[i]
+					}
+					out = append(out, fmt.Sprintf("%s[%d/%d] %s %s", dataVar, i, len(as.Lhs), as.Tok.String(), srcString(rhs)))
+				}
+			}
+		}
+		return true
+	})
+	return out
+}
+
+// srcString prints an expression as gofmt would
+func srcString(e ast.Expr) string {
+	var sb strings.Builder
+	if err := printer.Fprint(&sb, token.NewFileSet(), e); err != nil {
+		return "?"
+	}
+	return strings.Join(strings.Fields(sb.String()), " ")
+}
+
+func leanPairList(ps [][2]string) string {
+	parts := []string{}
+	for _, p := range ps {
+		parts = append(parts, "("+leanStr(p[0])+", "+leanStr(p[1])+")")
+	}
+	return "[" + strings.Join(parts, ", ") + "]"
+}
+
 func extractRest() {
 	_, xbar := parseDir(filepath.Join(*repo, "internal", "crossbar"))
 	_, acc := parseDir(filepath.Join(*repo, "internal", "access"))
@@ -209,6 +317,18 @@ func extractRest() {
 		}
 		b.WriteString("def " + h.lean + " : List String := " + leanStrList(ops) + "\n")
 	}
+	for _, h := range []struct{ lean, name string }{{"readPumpGuards", "Client.readPump"}, {"writePumpGuards", "Client.writePump"}} {
+		ps := [][2]string{{"<missing>", ""}}
+		if fd := findFunc(xbar, h.name); fd != nil {
+			ps = guardedActions(fd.Body)
+		}
+		b.WriteString("def " + h.lean + " : List (String × String) := " + leanPairList(ps) + "\n")
+	}
+	fsrc := []string{"<missing>"}
+	if fd := findFunc(xbar, "Client.readPump"); fd != nil {
+		fsrc = frameSource(fd)
+	}
+	b.WriteString("def readPumpFrameSource : List String := " + leanStrList(fsrc) + "\n")
 	b.WriteString("\nend Extracted\n")
 	writeIfChanged(filepath.Join(*outDir, "Handlers.lean"), b.String())
 
